@@ -14,15 +14,20 @@ def run(prop, tier, seed, wd):
     for st in cfgs:
         for sdk in ("v1", "v2"):
             for i in range(st["seeds"]):
-                jobs.append((sdk, st["scenario"], seed * 1000 + i, st["g"], st["n"], st.get("race", True)))
+                jobs.append((sdk, st["scenario"], seed * 1000 + i, st["g"], st["n"], st.get("race", True), st.get("lin", True)))
     recs = []
     with cf.ThreadPoolExecutor(max_workers=4) as ex:
-        futs = [ex.submit(P.record_history, sdk, sc, sd, g, n, wd, race) for sdk, sc, sd, g, n, race in jobs]
-        for (sdk, sc, sd, g, n, race), f in zip(jobs, futs):
+        futs = [ex.submit(P.record_history, sdk, sc, sd, g, n, wd, race) for sdk, sc, sd, g, n, race, lin in jobs]
+        for (sdk, sc, sd, g, n, race, lin), f in zip(jobs, futs):
             r = f.result()
-            r.update(sdk=sdk, scenario=sc, seed=sd, g=g, n=n, race=race)
+            r.update(sdk=sdk, scenario=sc, seed=sd, g=g, n=n, race=race, lin=lin)
             recs.append(r)
-    todo = [r for r in recs if r["path"]]
+    # lin = False: a scenario recorded for the race detector and for crashes only (many commuting writes with equal stamps make the
+    # search for a linearization explode without adding anything)
+    for r in recs:
+        if r["path"] and not r["lin"]:
+            r.update(linearizable=True, states=0, ops=sum(1 for _ in open(r["path"])))
+    todo = [r for r in recs if r["path"] and r["lin"]]
     with cf.ThreadPoolExecutor(max_workers=P.NJUDGE) as ex:
         for r, res in zip(todo, ex.map(lambda r: P.linearize(r["path"], r["sdk"]), todo)):
             r.update(res)
